@@ -55,11 +55,31 @@ def run(repo, res, rid):
         tabs = sorted(k for k in set(ai) | set(ao) if k not in ("a", "b"))
         ok = all(ai.get(k) == {"Add"} and ao.get(k) == {"Sub"} for k in tabs)
         res.require(ok, rid, f"{mod}.{q} accumulators incremented on insertion are decremented on removal", f"insertion: { {k: sorted(v) for k, v in ai.items()} }, removal: { {k: sorted(v) for k, v in ao.items()} }", repo.loc(f, loops["in"]), f"{tabs}")
+    # singleton blocks: the block's start position moves with the edge pair
+    if repo.has_fn("phasing", "_block_singletons"):
+        from ..base import walk_guarded
+
+        f = repo.fn("phasing", "_block_singletons")
+        ins = [w for w in own_nodes(f) if isinstance(w, ast.While) and "insert" in U(w.test)]
+        if len(ins) == 1:
+            n += 1
+            ge = gp = None
+            for st, g in walk_guarded(ins[0].body):
+                if isinstance(st, ast.Assign) and isinstance(st.targets[0], ast.Subscript):
+                    b = U(st.targets[0].value)
+                    conds = sorted((U(e), pol) for e, pol in g if not isinstance(e, str))
+                    if b == "individuals_edges":
+                        ge = conds
+                    elif b == "individuals_position" and U(st.value) == "left":
+                        gp = conds
+            ok = ge is not None and gp is not None and ge == gp
+            res.require(ok, rid, "phasing._block_singletons the block start position is reset whenever an inserted edge changes the individual's edge pair", f"edge pair is updated under {ge} but the start position `= left` under {gp}: a block whose second leaf edge starts later keeps the earlier start, so its span also covers the stretch where only one branch existed", repo.loc(f, ins[0]), f"{ge}")
     if n == 0:
         raise AnalysisError(f"{rid}: no edge sweep found (anchors vanished)")
 
 
 VARIANTS = [
+    dict(name="block-start-only-for-new-blocks", mod="phasing", expect="fire", old="                individuals_position[i] = left\n                if individuals_block[i] == tskit.NULL:\n                    individuals_block[i] = num_blocks\n", new="                if individuals_block[i] == tskit.NULL:\n                    individuals_block[i] = num_blocks\n                    individuals_position[i] = left\n"),
     dict(name="edge-table-not-reset", mod="rescaling", expect="fire", old="            nodes_edge[c] = tskit.NULL\n            nodes_parent[c] = tskit.NULL\n", new="            nodes_parent[c] = tskit.NULL\n"),
     dict(name="span-added-on-removal", mod="rescaling", expect="fire", old="                edges_span[e] -= remainder\n", new="                edges_span[e] += remainder\n"),
     dict(name="frequency-parent-not-reset", mod="phasing", expect="fire", old="            nodes_parent[c] = tskit.NULL\n            while p != tskit.NULL:\n                nodes_samples[p] -= nodes_samples[c]\n                p = nodes_parent[p]\n", new="            while p != tskit.NULL:\n                nodes_samples[p] -= nodes_samples[c]\n                p = nodes_parent[p]\n"),
